@@ -2921,6 +2921,11 @@ func (uconn *UConn) ApplyPreset(p *ClientHelloSpec) error {
 					}
 					uconn.HandshakeState.State13.KeyShareKeys.Mlkem = mlkemKey
 					uconn.HandshakeState.State13.KeyShareKeys.MlkemEcdhe = ecdheKey
+					if !preferredCurveIsSet {
+						// a hello without classical shares still has a key for the
+						// key-share consistency check of the handshake
+						uconn.HandshakeState.State13.KeyShareKeys.Ecdhe = ecdheKey
+					}
 				} else {
 					ecdheKey, err := generateECDHEKey(uconn.config.rand(), curveID)
 					if err != nil {
